@@ -524,7 +524,7 @@ func runOracle(repo, oracleDir, prop string, seed int64, tier string) (bool, str
 	if tier == "thorough" {
 		to = "600s"
 	}
-	args := []string{"test", "-overlay", ovf, "-vet=off", "-count=1", "-timeout", to, "-run", "TestVerifOracle_" + prop}
+	args := []string{"test", "-v", "-overlay", ovf, "-vet=off", "-count=1", "-timeout", to, "-run", "TestVerifOracle_" + prop}
 	for p := range pkgs {
 		args = append(args, p)
 	}
